@@ -344,3 +344,15 @@ def run(ctx):
     ctx.count("nal_sizes<=3", sum(1 for s in sizes if s <= 3))
     ctx.count("nal_sizes>=chunk4096", sum(1 for s in sizes if s >= 4096))
     ctx.count("nal_sizes>=100000", sum(1 for s in sizes if s >= 100000))
+
+
+def replay(ctx, path):
+    """every case is a deterministic function of (seed, tier): a replay re-runs the check with the seed and
+    tier recorded in the replay file (the offending input files are kept next to it for inspection)"""
+    import json
+    d = json.load(open(path))
+    ctx.seed = int(d.get("seed", ctx.seed))
+    ctx.tier = d.get("tier", ctx.tier)
+    ctx.rng = common.Lcg(ctx.seed)
+    run(ctx)
+    return ctx.finish()
